@@ -154,7 +154,13 @@ def cond_case(draw):
     how = draw(st.sampled_from(['var', 'lit']))
     if kind == 'IF':
         c = draw(st.one_of(truthy, st.sampled_from(CODES8).map(err)))
-        return {'kind': kind, 'c': c, 'a': draw(branch_val), 'b': draw(branch_val), 'how': how}
+        a, b = draw(branch_val), draw(branch_val)
+        if not isinstance(c, dict) and draw(st.integers(0, 3)) == 0:
+            if draw(st.booleans()):
+                a = err(draw(st.sampled_from(CODES8)))
+            else:
+                b = err(draw(st.sampled_from(CODES8)))
+        return {'kind': kind, 'c': c, 'a': a, 'b': b, 'how': how}
     if kind == 'IFS':
         n = draw(st.integers(1, 5))
         conds = [draw(truthy) for _ in range(n)]
@@ -162,6 +168,10 @@ def cond_case(draw):
         if draw(st.integers(0, 2)) == 0:
             firsttrue = next((i for i, c in enumerate(conds) if tv(c)), n - 1)
             conds[draw(st.integers(0, firsttrue))] = err(draw(st.sampled_from(CODES8)))
+        elif draw(st.booleans()):
+            # an error value sitting in value slots: it is the outcome only when its own condition is the first true one
+            for i in draw(st.lists(st.integers(0, n - 1), min_size=1, max_size=2)):
+                vals[i] = err(draw(st.sampled_from(CODES8)))
         return {'kind': kind, 'conds': conds, 'vals': vals, 'how': how}
     n = draw(st.integers(1, 4))
     textual = draw(st.booleans())
@@ -172,7 +182,17 @@ def cond_case(draw):
     default = draw(st.one_of(st.none(), st.just('dflt'), st.sampled_from(pool)))   # a default that may equal the target
     if draw(st.integers(0, 4)) == 0:
         target = err(draw(st.sampled_from(CODES8)))
+    elif draw(st.integers(0, 2)) == 0:
+        for i in draw(st.lists(st.integers(0, n - 1), min_size=1, max_size=2)):
+            results[i] = err(draw(st.sampled_from(CODES8)))
     return {'kind': kind, 'target': target, 'cases': cases, 'results': results, 'default': default, 'how': how}
+
+
+def expect_val(f, env, v, desc):
+    if is_errspec(v):
+        expect(f, env, want_error=v['v'], desc=desc)
+    else:
+        expect(f, env, v, desc=desc)
 
 
 def check_cond(case):
@@ -186,7 +206,7 @@ def check_cond(case):
         if is_errspec(case['c']):
             expect(f, env, want_error=case['c']['v'], desc=d)
         else:
-            expect(f, env, case['a'] if tv(case['c']) else case['b'], desc=d)
+            expect_val(f, env, case['a'] if tv(case['c']) else case['b'], desc=d)
         return
     if kind == 'IFS':
         seq = []
@@ -201,7 +221,7 @@ def check_cond(case):
                 expect(f, env, want_error=c['v'], desc=d)
                 return
             if tv(c):
-                expect(f, env, v, desc=d)
+                expect_val(f, env, v, desc=d)
                 return
         expect(f, env, want_error='#N/A', desc=d)
         return
@@ -219,12 +239,20 @@ def check_cond(case):
         return
     for c, v in zip(case['cases'], case['results']):
         if c == case['target']:
-            expect(f, env, v, desc=d)
+            expect_val(f, env, v, desc=d)
             return
     if case['default'] is not None:
         expect(f, env, case['default'], desc=d)
     else:
         expect(f, env, want_error='#N/A', desc=d)
+
+
+def cond_classes(c):
+    out = [cond_key(c)]
+    slots = c.get('vals') or c.get('results') or [c.get('a'), c.get('b')]
+    if any(is_errspec(x) for x in slots) and out[0] != 'error-in-condition':
+        out.append('error-in-value-slot')
+    return out
 
 
 def cond_key(c):
@@ -316,19 +344,19 @@ LAWS = [
         rule='1-6 truth-carrying items (TRUE, FALSE, integers, floats, blank), optionally 1-2 error values of any of the 8 codes at any position, regrouped into scalar / array / nested-array arguments given as variables or literals: '
              'AND = all, OR = any, XOR = parity, NOT = negation of the truth values; an error item yields that error (the leftmost); non-trivial = mixed truth values, nesting, or an error in a non-first position'),
     Law('conditionals', check_cond, strategy=cond_case(), key=cond_key, quick=4000, thorough=150000, shards=(8, 16),
-        classes=lambda c: (cond_key(c),), required=('IF', 'IFS', 'SWITCH', 'error-in-condition', 'SWITCH-default-equals-target'),
+        classes=cond_classes, required=('IF', 'IFS', 'SWITCH', 'error-in-condition', 'SWITCH-default-equals-target', 'error-in-value-slot'),
         nontrivial=lambda c: c['kind'] != 'IF' or cond_key(c) == 'error-in-condition',
         rule='IF(cond, a, b); IFS with 1-5 (condition, value) pairs; SWITCH(target, 1-4 (case, result) pairs [, default]) with targets/cases of one kind and a default that may equal the target; '
-             'an error in the tested position (IF condition, an IFS condition at or before the first true one, the SWITCH target) yields that error'),
+             'an error in the tested position (IF condition, an IFS condition at or before the first true one, the SWITCH target) yields that error; an error value sitting in a branch/value/result slot is the outcome exactly when that slot is the selected one'),
     Law('predicates', check_predicates, strategy=st.fixed_dictionaries({'v': pred_value, 'how': st.sampled_from(['var', 'lit', 'cell'])}), quick=4000, thorough=150000, shards=(4, 16),
         classes=lambda c: (c['v'][0], 'how:' + c['how']), required=('number', 'text', 'logical', 'blank', 'error', 'how:cell', 'how:lit'),
         nontrivial=lambda c: c['how'] != 'lit' or c['v'][0] in ('error', 'blank'),
         rule='a value of each class (number, text incl. "", "12", "TRUE"; logical; blank; each of the 8 error codes) as variable, literal/expression or listener-served cell: '
              'ISNUMBER/ISTEXT/ISLOGICAL/ISBLANK/ISERROR true exactly on their class (hence mutually exclusive), ISNONTEXT = not ISTEXT, ISERROR = ISERR or ISNA, ISNA only on #N/A'),
     Law('parity', check_parity, quick=2000, thorough=100000, shards=(4, 8),
-        strategy=st.fixed_dictionaries({'x': st.one_of(st.integers(-2 ** 53, 2 ** 53), st.integers(-20, 20), st.floats(-1e6, 1e6, allow_nan=False), st.integers(-40, 40).map(lambda k: k / 2.0)), 'var': st.booleans()}),
+        strategy=st.fixed_dictionaries({'x': st.one_of(st.integers(-2 ** 53, 2 ** 53), st.integers(-2 ** 70, 2 ** 70), st.integers(0, 40).flatmap(lambda k: st.sampled_from([3 ** k, -3 ** k, 2 ** 53 + 2 * k + 1, 2 ** 53 + 2 * k, 10 ** k + 1])), st.integers(-20, 20), st.floats(-1e6, 1e6, allow_nan=False), st.integers(-40, 40).map(lambda k: k / 2.0)), 'var': st.booleans()}),
         nontrivial=lambda c: c['x'] < 0 or isinstance(c['x'], float),
-        rule='finite numbers below 2^53 of either sign, integers and fractions: ISEVEN/ISODD report the parity of the integer part and are complementary'),
+        rule='finite numbers of either sign - integers up to 2^70 in magnitude (exact Python integers, as 3^40 evaluates to), floats and halves up to 1e6: ISEVEN/ISODD report the parity of the integer part and are complementary'),
 ]
 
 LEVEL_TEXT = 'Hypothesis exploration of the truth-functional laws over generated tuples with regrouping into nested arrays, of IF/IFS/SWITCH selection incl. the default-equals-target corner, of error values in every tested position, and of the predicate x value-class matrix through variables, literals and cells.'
